@@ -98,9 +98,6 @@ Section SegSpec.
                 ++ [LOutcome o (r_id r) (r_tags r) (r_details r); LStopTest (r_id r)]
     end.
 
-  Definition is_tags (l : logev CT) : bool := match l with LTags _ _ => true | _ => false end.
-  Definition strip (log : list (logev CT)) : list (logev CT) := filter (fun l => negb (is_tags l)) log.
-
   Definition ext_expected (evs : list event) : list (logev CT) :=
     [LStartRun] ++ flat_map bracket (tests (filter not_exists evs)) ++ [LStopRun].
 End SegSpec.
@@ -109,7 +106,7 @@ Arguments somes {M A}. Arguments chunk_of {M}. Arguments chunks {M}. Arguments n
 Arguments file_of {M CT}. Arguments files {M CT}. Arguments seg_record {M CT}.
 Arguments Seg {M}. Arguments g_key {M}. Arguments g_hung {M}. Arguments g_events {M}.
 Arguments segments {M}. Arguments record_of {M CT}. Arguments tests {M CT}.
-Arguments bracket {CT}. Arguments is_tags {CT}. Arguments strip {CT}. Arguments ext_expected {M CT}.
+Arguments bracket {CT}. Arguments ext_expected {M CT}.
 
 (* ---------- C10's instance: mime types and content types are codes ---------- *)
 (* code 0 is application/octet-stream, which is also what mime_type=None means *)
